@@ -82,7 +82,10 @@ def check(run):
         st = stores[0]
         row, col = st.targets[0].slice.elts
         lp = [c for s, c in walk(g.node) if s is st][0].loops[-1]
-        i = lp.target.id
+        if not isinstance(lp.target, ast.Name):
+            run.undecided('R12.zobs', g, lp.target, 'loop over the measured qubits is not an index loop')
+            lp = None
+        i = lp.target.id if lp is not None else '?'
         # column as a function of the qubit index self.qubits[i]
         ok = None
         try:
@@ -102,7 +105,8 @@ def check(run):
             run.check(ok, 'R12.zobs', g, st, 'the Z observable of qubit q sets the z slot 2q+1 (found columns %s for q=0,1,4)' % vals)
         run.check(norm(row) == i and isinstance(st.value, ast.Constant) and st.value.value == 1, 'R12.zobs', g, st,
                   'row i of the observable table belongs to the i-th measured qubit')
-        run.check(norm(lp.iter).replace(' ', '') == 'range(len(self.qubits))', 'R12.zobs', g, lp.iter, 'one observable per measured qubit, in order')
+        if lp is not None:
+            run.check(norm(lp.iter).replace(' ', '') == 'range(len(self.qubits))', 'R12.zobs', g, lp.iter, 'one observable per measured qubit, in order')
     # ---- no sliding across a measurement
     layer = repo.cls('pyclifford', 'CliffordLayer')
     CR.check_take(run, repo, layer.methods['take'], True)
@@ -260,7 +264,20 @@ def check(run):
                 ok = False
         run.check(ok, 'R11.impossible', b, pcall, 'an impossible post-selection (probability 0) must raise')
         run.check(norm(st.iter).replace(' ', '').startswith('range(1,len('), 'R10.order', b, st.iter, 'post-selection runs over the qubits in reverse (ii = 1..len)')
-    run.check(n_loops == 2, 'R11.impossible', b, 'two record sources', 'both the supplied record and the stored result are post-selected')
+    if n_loops == 1:
+        # one shared loop: the record it walks through must come from the supplied record on one path and from self.result on the other
+        from ..names import local_deps
+        dps = local_deps(b)
+        recs = set()
+        for st, ctx in walk(b.node):
+            if isinstance(st, ast.For):
+                for nm in ast.walk(st.iter):
+                    if isinstance(nm, ast.Name):
+                        recs |= dps.get(nm.id, set())
+        run.check(('param', b.posparams[2]) in recs and ('attr', 'result') in recs, 'R11.impossible', b, 'two record sources',
+                  'both the supplied record and the stored result are post-selected (one shared loop fed from either)')
+    else:
+        run.check(n_loops == 2, 'R11.impossible', b, 'two record sources', 'both the supplied record and the stored result are post-selected')
     # the observable buffer is rebuilt for every post-selected qubit
     from ..rules import rowclass
     rowclass.check_buffer_resets(run, b)
